@@ -15,7 +15,7 @@ RULE = ("cases = generated 3D plotfiles (non-zero origin, anisotropic cells, 1-3
         "non-zero origin or anisotropic cells or level > 0")
 ASSUMPTIONS = ["scipy cubic-spline interpolation is exact at knots up to rounding",
                "generator trusted"]
-REQUIRED_OBS = {"queries": 300, "level_gt0": 30, "nonzero_origin": 100, "outside_refused": 30,
+REQUIRED_OBS = {"queries": 300, "level_gt0": 30, "nonzero_origin": 100, "outside_refused": 30, "outside_within_a_cell": 100,
                 "multi_field": 100}
 TIMEOUT = {"quick": 300, "thorough": 1500}
 
@@ -105,9 +105,17 @@ def run_case(case, work, rec):
     ext = [m.geo_high[d] - m.geo_low[d] for d in range(3)]
     mid = [m.geo_low[d] + 0.37 * ext[d] for d in range(3)]
     for d in range(3):
-        for side, p in (("low", m.geo_low[d] - 0.6 * ext[d] - 1.0), ("high", m.geo_high[d] + 0.6 * ext[d] + 1.0)):
+        fdx = m.dx[m.nlevels - 1][d]
+        outs = [("low", m.geo_low[d] - 0.6 * ext[d] - 1.0), ("high", m.geo_high[d] + 0.6 * ext[d] + 1.0)]
+        # just outside: closer to the face than half a cell of the finest / coarsest level
+        for frac in (1e-3, 0.25, 0.45, 1.0):
+            for w in (fdx, m.dx[0][d]):
+                outs += [(f"low-{frac}", m.geo_low[d] - frac * w), (f"high+{frac}", m.geo_high[d] + frac * w)]
+        for side, p in outs:
             pt = list(mid); pt[d] = p
-            key = (digest, "outside", d, side)
+            key = (digest, "outside", d, side, round((p - m.geo_low[d]) / fdx, 6))
+            if "-" in side or "+" in side:
+                rec.count("outside_within_a_cell")
             try:
                 got = pck[0](*pt)
                 rec.violation(f"point outside the domain ({'xyz'[d]} {side}) was answered with {np.asarray(got).tolist()!r}",
